@@ -21,7 +21,7 @@ META = dict(
     property="C53",
     level="fault_enumeration",
     technique="random write/rotate/reopen histories on the real LogFile with an exact directory-transition oracle after every operation, plus directory snapshots before every remove/rename/open inside rotate() (crash states) checked for the suffix property and for a clean continuation",
-    level_text="Histories of bytes and (multi-byte) text writes, explicit rotate(), flush, reopen() (also after an external tool has moved or truncated the current file, the documented use of reopen()) and close+new instance, rotateLength 1..200 or None, maxRotatedFiles None, 1..4 or 9..14, optionally up to 13 pre-existing rotated files (so that suffixes reach two digits), several file names. After every operation the whole directory is compared with the permitted transitions (exact content of every file). Every crash point inside every rotation (before each os.remove/os.rename and before the new file is opened) is enumerated: the files present, oldest first, must be a byte suffix of everything written (everything, if there is no retention count), and a new LogFile opened on that state must rotate once more with the same guarantee. Histories are sampled (Hypothesis) plus a complete enumeration of short histories over a small alphabet.",
+    level_text="Histories of bytes and (multi-byte) text writes, explicit rotate(), flush, reopen() (also after an external tool has moved or truncated the current file, the documented use of reopen()) and close+new instance, rotateLength 1..200 or None, maxRotatedFiles None, 1..4 or 9..14, optionally up to 13 pre-existing rotated files (so that suffixes reach two digits), several file names and log directory names (including ones with glob metacharacters). After every operation the whole directory is compared with the permitted transitions (exact content of every file). Every crash point inside every rotation (before each os.remove/os.rename and before the new file is opened) is enumerated: the files present, oldest first, must be a byte suffix of everything written (everything, if there is no retention count), and a new LogFile opened on that state must rotate once more with the same guarantee. Histories are sampled (Hypothesis) plus a complete enumeration of short histories over a small alphabet.",
     level_note="Promptness of rotation is not asserted (the statement does not; LogFile counts characters, not bytes, so rotation after multi-byte text may come late, which the statement allows). Runs as a user for whom os.access() succeeds. Process-crash model: completed system calls persist in order. Partial writes of a single write() are not enumerated (the file is unbuffered; a prefix of the last write is trivially a suffix-preserving state).",
     design_ref="§5 C53",
     rule="case = (name, rotateLength, maxRotatedFiles, pre-existing rotated files, operation list). One evaluation = one history with all its crash states. non-trivial = a rotation that had at least one older rotated file to move (or drop); distinct by (retention count, contents of the files before the rotation).",
@@ -108,8 +108,12 @@ def _rotated_after(rotated, current, keep):
     return new
 
 
+_DIRNAME = {"v": "logs"}
+
+
 def _sig(base, name):
-    return base + (":glob-metacharacters-in-name" if any(c in name for c in GLOB_CHARS) else "")
+    return (base + (":glob-metacharacters-in-name" if any(c in name for c in GLOB_CHARS) else "")
+            + (":glob-metacharacters-in-directory" if any(c in _DIRNAME["v"] for c in GLOB_CHARS) else ""))
 
 
 def _check_crash_states(ctx, case, states, written, keep, name, d, rot_len, holder, what):
@@ -129,8 +133,8 @@ def _check_crash_states(ctx, case, states, written, keep, name, d, rot_len, hold
         if k == 0:
             continue    # nothing has been moved yet: the same as an ordinary state between operations
         # a new process opens the log on this state and rotates once more
-        sub = os.path.join(d, f"crash{ctx.extra['crash_states']}")
-        os.mkdir(sub)
+        sub = os.path.join(d, f"crash{ctx.extra['crash_states']}", _DIRNAME["v"])
+        os.makedirs(sub)
         for i, data in rotated.items():
             with _builtin_open(os.path.join(sub, f"{name}.{i}"), "wb") as fh:
                 fh.write(data)
@@ -162,8 +166,12 @@ def run_case(ctx, case):
     name, rot_len, keep = case["name"], case["rotateLength"], case["maxRotatedFiles"]
     holder = {"rec": None}
     with harness.scratch_dir("C53") as work, _Patched(holder):
-        d = os.path.join(work, "logs")
+        dirname = case.get("dirname") or "logs"
+        _DIRNAME["v"] = dirname
+        d = os.path.join(work, dirname)
         os.mkdir(d)
+        if dirname != "logs":
+            ctx.count("log directory name: " + ("with glob metacharacters" if any(c in dirname for c in GLOB_CHARS) else "other"))
         pre = case.get("pre") or []
         for i, data in enumerate(pre):
             with _builtin_open(os.path.join(d, f"{name}.{i + 1}"), "wb") as fh:
@@ -302,6 +310,7 @@ def _strategy(names):
     return st.builds(
         dict,
         name=st.sampled_from(names),
+        dirname=st.sampled_from(["logs", "logs", "run[1]", "var.log", "a*b?", "[x]"]),
         rotateLength=st.one_of(st.integers(1, 12), st.integers(1, 200), st.none()),
         maxRotatedFiles=st.one_of(st.none(), st.integers(1, 4), st.integers(9, 14)),
         pre=st.one_of(st.just([]), st.lists(st.binary(max_size=8), max_size=5),
@@ -312,7 +321,7 @@ def _strategy(names):
 
 
 def _small(maxlen):
-    alphabet = [("w", b"ab"), ("w", b"cdefg"), ("t", "é"), ("rotate",), ("new",), ("ext_move",), ("ext_truncate",)]
+    alphabet = [("w", b"ab"), ("w", b"cdefg"), ("t", "é"), ("rotate",), ("new",), ("reopen",), ("ext_move",), ("ext_truncate",)]
     for rot_len in (1, 3):
         for keep in (None, 1, 2):
             def rec(prefix):
@@ -335,6 +344,11 @@ def _many_files():
                         [("rotate",), ("new",), ("w", b"abc"), ("rotate",), ("t", "é"), ("w", b"q")]):
                 yield dict(name="log", rotateLength=2, maxRotatedFiles=keep, pre=pre, pre_current=b"cur",
                            ops=list(ops))
+    # unusual directory names, a few rotations each
+    for dirname in ("run[1]", "[x]", "a*b?", "var.log"):
+        for keep in (None, 1, 2):
+            yield dict(name="log", dirname=dirname, rotateLength=2, maxRotatedFiles=keep, pre=[b"old1;", b"old2;"],
+                       pre_current=b"cur", ops=[("w", b"ab"), ("w", b"cd"), ("rotate",), ("new",), ("w", b"ef"), ("w", b"g")])
 
 
 def _enum_shard(sub, arg):
